@@ -162,12 +162,12 @@ Definition held_by (c : jconfig) (k t : nat) : bool :=
   match p_mu (getp c k) with Some t' => Nat.eqb t t' | None => false end.
 
 Definition is_pjoin (p : prom) : bool := match p_joined p with COpen => true | _ => false end.
-Definition is_joined (p : prom) : bool := match p_next p with Some _ => true | None => false end.
+Definition p_is_joined (p : prom) : bool := match p_next p with Some _ => true | None => false end.
 Definition no_signals (p : prom) : bool := match p_signals p with [] => true | _ => false end.
 (* isPendingResolution: caller == nil && next == nil && joined == nil && len(signals) > 0 *)
 Definition is_pres (p : prom) : bool :=
-  negb (p_caller p) && negb (is_joined p) && negb (is_pjoin p) && negb (no_signals p).
-Definition is_resolved (p : prom) : bool := no_signals p && negb (is_joined p).
+  negb (p_caller p) && negb (p_is_joined p) && negb (is_pjoin p) && negb (no_signals p).
+Definition p_is_resolved (p : prom) : bool := no_signals p && negb (p_is_joined p).
 
 Definition jcur_res (p : prom) : resolution := match p_result p with Some r => r | None => RFul [] end.
 
@@ -291,7 +291,7 @@ Definition sec_join_par (v : jvariant) (c : jconfig) (t : nat) (th : jthread) : 
     Some (sett (setp c k (sp_mu (sp_joined p COpen) None)) t (jgoto th QJWaitRes))
   else if is_pjoin q then
     Some (sett (setp c k (sp_mu (sp_joined p COpen) None)) t (jgoto th QJWaitJ))
-  else if is_resolved q then
+  else if p_is_resolved q then
     Some (resolve_entry v c t th k (jcur_res q))
   else match p_next q with
        | Some nx => Some (sett c t (sj_par th nx))
